@@ -60,7 +60,8 @@ def strategy_impl(draw, tier):
         for _ in range(k):
             # a metric for the axes `s` may vary along further axes as well (e.g. dx(y, x) registered for ('X',))
             others = [a for a in names if a not in s and draw(st.sampled_from([False, False, True]))]
-            on = list(s) + others
+            # (the order in which a metric variable stores its dimensions is drawn too: a position is a set of dimensions)
+            on = list(draw(st.permutations(list(s) + others)))
             pos = [draw(st.sampled_from(opts(a))) for a in on]
             key = frozenset(zip(on, pos))
             if key in seen:
